@@ -2767,8 +2767,13 @@ class HasTraits(CHasTraits, metaclass=MetaHasTraits):
         del locked[name]
 
     def _sync_trait_items_modified(self, object, name, old, event):
-        n0 = event.index
-        n1 = n0 + len(event.removed)
+        index = event.index
+        if isinstance(index, slice):
+            # Extended slice: items replaced one for one, or deleted.
+            key = index
+        else:
+            key = slice(index, index + len(event.removed))
+        deleted = isinstance(index, slice) and len(event.added) == 0
         name = name[:-6]
         info = self.__sync_trait__
         if name not in info:
@@ -2781,7 +2786,10 @@ class HasTraits(CHasTraits, metaclass=MetaHasTraits):
             object = object()
             if object_name not in object._get_sync_trait_info()[""]:
                 try:
-                    getattr(object, object_name)[n0:n1] = event.added
+                    if deleted:
+                        del getattr(object, object_name)[key]
+                    else:
+                        getattr(object, object_name)[key] = event.added
                 except:
                     pass
 
